@@ -311,3 +311,121 @@ func VH_C08_outage_never_collapses_the_retransmission_window() {
 //verif:unwind 40
 //verif:timeout 600
 func VH_C08_acknowledgements_release_exactly_the_acknowledged_frames() { c11RecvAck(2) }
+
+// An acknowledgement a tube sends reports the RECEIVER's own progress: the
+// priority acknowledgement that answers a retransmitted data frame carries the
+// receive window's acknowledgement number - never a number taken from the
+// peer's frame (which the peer would read as a cumulative acknowledgement of
+// frames it never delivered).
+//
+//verif:prop C08
+//verif:bounds tube in state initiated, receive window start symbolic in [1,2^40); one retransmitted data frame (RTR, 1 byte) at window start +0..+2 with a symbolic acknowledgement field
+//verif:cover answered
+func VH_C08_retransmission_ack_reports_the_receivers_own_progress() {
+	log := logrus.NewEntry(logrus.New())
+	r := &Reliable{id: verifU8("tube-id"), sender: newSender(log), recvWindow: newReceiver(log), closed: make(chan struct{}), initRecv: make(chan struct{}), initDone: make(chan struct{}), sendDone: make(chan struct{}), sendQueue: make(chan []byte, 8), prioritySendQueue: make(chan []byte, 8), log: log}
+	r.tubeState = initiated
+	ws := verifU64("windowStart")
+	verifAssume(ws >= 1 && ws < 1<<40)
+	r.recvWindow.windowStart, r.recvWindow.ackNo = ws, ws-1
+	e := verifPick("frame-offset", 0, 1, 2)
+	pkt := &frame{tubeID: r.id, frameNo: uint32(ws + uint64(e)), ackNo: verifU32("peer-ack-field"), dataLength: 1, data: []byte{verifU8("payload")}}
+	pkt.flags.RTR, pkt.flags.REL = true, true
+	_ = r.receive(pkt)
+	verifAssert(len(r.prioritySendQueue) == 1, "C08: a retransmitted data frame is answered by one priority acknowledgement")
+	if len(r.prioritySendQueue) != 1 {
+		return
+	}
+	raw := <-r.prioritySendQueue
+	f, err := fromBytes(append(raw, make([]byte, 16)...))
+	verifAssert(err == nil, "C08: the acknowledgement decodes")
+	if err != nil {
+		return
+	}
+	verifCover("answered")
+	verifAssert(verifAnd(f.flags.ACK, f.ackNo == uint32(ws-1)), "C08: the acknowledgement number sent is the receive window's own (everything before it was received in order), not a number echoed from the peer's frame")
+}
+
+// The message API over the byte stream (WriteMsgUDP / ReadMsgUDP, used by the
+// principal proxy): a message is returned only when all of its bytes have
+// arrived, and then it is exactly the bytes written.
+//
+//verif:prop C08
+//verif:replay none
+//verif:bounds message length in {1,2,300}; the stream holds the 2-byte length prefix and the first 0, 1 or all-but-one or all bytes of the body (the rest has not arrived yet); body bytes symbolic
+//verif:cover complete;waiting
+func VH_C08_message_read_waits_for_the_whole_message() {
+	log := logrus.NewEntry(logrus.New())
+	r := &Reliable{sender: newSender(log), recvWindow: newReceiver(log), closed: make(chan struct{}), initRecv: make(chan struct{}), initDone: make(chan struct{}), sendDone: make(chan struct{}), log: log}
+	close(r.initDone)
+	r.tubeState = initiated
+	l := verifPick("message-length", 1, 2, 300)
+	have := verifPick("body-bytes-arrived", 0, 1, 299, 300)
+	verifAssume(have <= l && (have == l || have == 0 || have == 1 || have == l-1))
+	msg := verifBytes("message", l)
+	r.recvWindow.buffer.Write([]byte{byte(l >> 8), byte(l)})
+	r.recvWindow.buffer.Write(msg[:have])
+	verifOnBlock(func() {
+		verifCover("waiting")
+		verifAssert(have < l, "C08: ReadMsgUDP blocks only while part of the message is still missing")
+	})
+	b := make([]byte, 400)
+	n, _, _, _, err := r.ReadMsgUDP(b, nil)
+	// it returned without waiting
+	verifAssert(verifOr(have == l, err != nil), "C08: ReadMsgUDP does not hand out a message before all of its bytes have arrived (no zero-filled tail)")
+	if have == l {
+		verifCover("complete")
+		verifAssert(err == nil && n == l, "C08: a complete message is returned whole")
+		if n == l {
+			verifAssertBytesEq(b[:n], msg, "C08: the message read is the message written")
+		}
+	}
+}
+
+// Closing one tube never unmaps its twin of the other reliability class: tube
+// identifiers are allocated per class, so a reliable and an unreliable tube
+// regularly share a number.
+//
+//verif:prop C08
+//verif:replay none
+//verif:stub (*hop.computer/hop/tubes.Reliable).WaitForClose = c09WaitForClose
+//verif:stub (*hop.computer/hop/tubes.Unreliable).WaitForClose = c08UnrelWaitForClose
+//verif:bounds muxer of either parity holding a reliable and an unreliable tube with the same symbolic identifier (opened by the peer, so no reap delay); either one is closed and reaped
+//verif:cover reliable-reaped;unreliable-reaped
+func VH_C08_reaping_a_tube_leaves_its_twin_of_the_other_class_mapped() { c08Twin("C08") }
+
+//verif:prop C09
+//verif:replay none
+//verif:stub (*hop.computer/hop/tubes.Reliable).WaitForClose = c09WaitForClose
+//verif:stub (*hop.computer/hop/tubes.Unreliable).WaitForClose = c08UnrelWaitForClose
+//verif:bounds as VH_C08_reaping_a_tube_leaves_its_twin_of_the_other_class_mapped
+//verif:cover reliable-reaped;unreliable-reaped
+func VH_C09_reaping_a_tube_leaves_its_twin_of_the_other_class_mapped() { c08Twin("C09") }
+
+func c08UnrelWaitForClose(u *Unreliable) {}
+
+func c08Twin(prop string) {
+	log := logrus.NewEntry(logrus.New())
+	m := &Muxer{reliableTubes: map[byte]*Reliable{}, unreliableTubes: map[byte]*Unreliable{}, stopped: make(chan struct{}), log: log}
+	m.idParity = byte(verifPick("parity", 0, 1))
+	id := verifU8("tube-id")
+	verifAssume(id%2 != m.idParity) // opened by the peer: reaped without the 4*RTT delay
+	rel := &Reliable{id: id, sender: newSender(log), log: log}
+	unrel := &Unreliable{id: id, log: log}
+	m.reliableTubes[id], m.unreliableTubes[id] = rel, unrel
+	if verifBool("close-the-reliable-one") {
+		m.reapTube(rel)
+		verifCover("reliable-reaped")
+		_, gone := m.reliableTubes[id]
+		verifAssert(!gone, prop+": a reaped tube is unmapped")
+		got, ok := m.unreliableTubes[id]
+		verifAssert(ok && got == unrel, prop+": reaping a reliable tube leaves the unreliable tube with the same identifier mapped")
+	} else {
+		m.reapTube(unrel)
+		verifCover("unreliable-reaped")
+		_, gone := m.unreliableTubes[id]
+		verifAssert(!gone, prop+": a reaped tube is unmapped")
+		got, ok := m.reliableTubes[id]
+		verifAssert(ok && got == rel, prop+": reaping an unreliable tube leaves the reliable tube with the same identifier mapped (its stream must stay deliverable)")
+	}
+}
